@@ -221,6 +221,19 @@ package hotline
 //@ define wire_TrackerReg(t) := cat(seq(0,1), bytes(t.Port), be16(t.UserCount), seq(0,0), bytes(t.PassID), seq(len(t.Name)), bytes(t.Name), seq(len(t.Description)), bytes(t.Description), seq(len(t.Password)), bytes(t.Password))
 //@ define inv_TrackerReg(t) := len(t.Name) <= 255 && len(t.Description) <= 255 && len(t.Password) <= 255 && 0 <= t.UserCount && t.UserCount <= 65535
 
+// Tracker listing record (what a tracker sends back): address 4, port 2, user count 2, 2 unused,
+// name size 1, name, description size 1, description.  The decoder takes each field from its
+// place in a complete record and reports the record's length.
+//@ func (s *ServerRecord) Write(b []byte) (n int, err error)
+//@   property C01
+//@   requires s != nil && len(b) >= 13 && len(b) >= 12 + b[10] && len(b) >= 12 + b[10] + b[11+b[10]]
+//@   ensures err == nil && n == 12 + old(b[10]) + old(b[11+b[10]])
+//@   ensures bytes(s.IPAddr) == old(bytes(b)[0:4]) && bytes(s.Port) == old(bytes(b)[4:6]) && bytes(s.NumUsers) == old(bytes(b)[6:8])
+//@   ensures s.NameSize == old(b[10]) && len(s.Name) == old(b[10]) && s.DescriptionSize == old(b[11+b[10]]) && len(s.Description) == s.DescriptionSize
+//@   ensures bytes(s.Name) == old(bytes(b)[11:11+b[10]]) && bytes(s.Description) == old(bytes(b)[12+b[10]:12+b[10]+b[11+b[10]]])
+//@   modifies *s
+//@   nopanic
+
 //@ func (tr *TrackerRegistration) Read(p []byte) (n int, err error)
 //@   cursor wire_TrackerReg readOffset inv_TrackerReg
 
@@ -477,6 +490,39 @@ package hotline
 //@   before call (hotline.ClientManager).Add assert callres("(*hotline.ClientConn).Authenticate")
 //@   before call (*hotline.ClientConn).Authenticate assert callarg("(*hotline.Transaction).GetField#1", 1)[0] == 0 && callarg("(*hotline.Transaction).GetField#1", 1)[1] == 106 && same(arg2, encodedPassword)
 
+// C02: the control connection is tokenised by ONE scanner from the login on.  A scanner reads ahead:
+// bytes that arrived together with the login transaction sit in its buffer, so a second scanner
+// (or buffered reader, or a direct Read) on the connection would lose them or start mid-frame --
+// only for some segmentations.
+//@ func (s *Server) handleNewConnection(ctx context.Context, rwc io.ReadWriteCloser, remoteAddr string) (err error)
+//@   property C02
+//@   before call bufio.NewScanner#1 assert same(arg0, rwc)
+//@   before any call bufio.NewScanner#2 assert false
+//@   before any call bufio.NewScanner#3 assert false
+//@   before any call bufio.NewReader assert !same(arg0, rwc)
+//@   before any call bufio.NewReaderSize assert !same(arg0, rwc)
+//@   before any call (io.ReadWriteCloser).Read assert false
+//@   before call (*bufio.Scanner).Bytes assert arg0 == callres("bufio.NewScanner#1")
+//@   before call (*bufio.Scanner).Scan assert arg0 == callres("bufio.NewScanner#1")
+
+// C03: the session loop makes progress or ends: every iteration that goes round again has handed
+// a decoded transaction to its handler -- a token that cannot be decoded (a corrupted length field
+// can make the tokeniser deliver an empty one without consuming input) ends the session instead of
+// being skipped.
+//@ func (s *Server) handleNewConnection(ctx context.Context, rwc io.ReadWriteCloser, remoteAddr string) (err error)
+//@   property C03
+//@   loop 2 reaches (*hotline.ClientConn).handleTransaction
+
+// C04: the first transaction of a connection decides the login.  The login is decoded from the
+// first token the connection's scanner delivers -- one Scan, not a loop that steps over "harmless"
+// transactions and leaves an unauthenticated peer connected -- and a refusal is answered and ends
+// the connection.
+//@ func (s *Server) handleNewConnection(ctx context.Context, rwc io.ReadWriteCloser, remoteAddr string) (err error)
+//@   property C04
+//@   once call (*bufio.Scanner).Scan#1
+//@   once call (*hotline.ClientConn).Authenticate
+//@   before call (*hotline.ClientConn).Authenticate assert called("(*bufio.Scanner).Scan")
+
 // C04: a login succeeds only for an existing account whose stored hash matches the password.
 
 //@ func (cc *ClientConn) Authenticate(login string, password []byte) (ok bool)
@@ -662,6 +708,11 @@ package hotline
 //@   requires cm != nil && cc != nil && !isnil(cm.chats)
 //@   ensures has(cm.chats, id) && get(cm.chats, id) != nil && has(get(cm.chats, id).ClientConn, cc.ID) && get(get(cm.chats, id).ClientConn, cc.ID) == cc
 //@   ensures forall(a, 0, 256, forall(b, 0, 256, (a != cc.ID[0] || b != cc.ID[1]) ==> !has(get(cm.chats, id).ClientConn, seq(a, b))))
+// the new chat's ID is not the public chat's (all zero: HandleChatSend routes that to everybody)
+// and was not in use: every chat that was open stays as it was, for whatever the random source yields
+//@   ensures !(id[0] == 0 && id[1] == 0 && id[2] == 0 && id[3] == 0) && !has_old(cm.chats, id)
+//@   ensures forall(k0, 0, 256, forall(k1, 0, 256, forall(k2, 0, 256, forall(k3, 0, 256, (k0 != id[0] || k1 != id[1] || k2 != id[2] || k3 != id[3]) ==> has(cm.chats, seq(k0, k1, k2, k3)) == has_old(cm.chats, seq(k0, k1, k2, k3)) && get(cm.chats, seq(k0, k1, k2, k3)) == get_old(cm.chats, seq(k0, k1, k2, k3))))))
+//@   loop 1 modifies &randID
 
 // ---------------------------------------------------------------------------------
 // C08: a granted download carries the flattened-file header (unless it is a preview), then the
@@ -724,6 +775,15 @@ package hotline
 
 //@ func NewTime(t time.Time) (b Time)
 //@   modifies nothing
+
+// Date stamp: year 2, milliseconds 2 (always zero), seconds since the start of that year 4.
+//@ func NewTime(t time.Time) (b Time)
+//@   property C01
+//@   before call PutUint16 assert arg2 == callres("(time.Time).Year#2") % 65536
+//@   before call time.Date assert arg0 == callres("(time.Time).Year#1") && arg1 == 1 && arg2 == 1 && arg3 == 0 && arg4 == 0 && arg5 == 0 && arg6 == 0
+//@   before call (time.Time).Sub assert same(arg0, t) && same(arg1, callres("time.Date"))
+//@   ensures b[2] == 0 && b[3] == 0
+//@   ensures b[0] == callarg("PutUint16", 1)[0] && b[1] == callarg("PutUint16", 1)[1] && b[4] == callarg("PutUint32", 1)[0] && b[7] == callarg("PutUint32", 1)[3]
 //@ func fileTypeFromInfo(info fs.FileInfo) (ft fileType, err error)
 //@   modifies nothing
 
@@ -803,6 +863,10 @@ package hotline
 //@   before call (io.ReadWriter).Write assert wcalls(conn) == 1
 //@   before call (io.ReadWriter).Write assert same(arg1, callres("(*hotline.flattenedFileObject).TransferSize#2"))
 //@   before call (io.ReadWriter).Write assert callarg("(*hotline.flattenedFileObject).TransferSize#2", 1) == dataOffset
+// the offset is applied once: the item's wrapper describes the whole file (offset 0), and the size
+// prefix is TransferSize(offset) of that wrapper
+//@   before call hotline.NewFileWrapper assert arg2 == 0
+//@   before call (*hotline.flattenedFileObject).TransferSize#2 assert arg0 == callres("hotline.NewFileWrapper", 0).Ffo
 //@   before call (io.ReadWriter).Write assert (*nextAction)[1] == 2 && callarg("(*hotline.FileResumeData).UnmarshalBinary", 1)[41] >= 1 ==> dataOffset == u32(bytes(callarg("(*hotline.FileResumeData).UnmarshalBinary", 1)), 46)
 //@   before call (io.ReadWriter).Write assert (*nextAction)[1] != 2 ==> dataOffset == 0
 //@   before call (io.ReadWriter).Write assert same(arg0, conn)
@@ -820,7 +884,7 @@ package hotline
 // created when missing.
 
 //@ func UploadFolderHandler(rwc io.ReadWriter, fullPath string, fileTransfer *FileTransfer, fileStore FileStore, rLogger *slog.Logger, preserveForks bool) (err error)
-//@   property C10
+//@   property C09 C10
 //@   before any call os.OpenFile assert bitof(arg1, 10) == 1 && bitof(arg1, 9) == 0
 //@   before any call (hotline.FileStore).OpenFile assert bitof(arg2, 10) == 1 && bitof(arg2, 9) == 0
 //@   some call os.OpenFile | (hotline.FileStore).OpenFile
@@ -942,6 +1006,14 @@ package hotline
 //@   modifies t.Flags, t.IsReply, t.Type, t.ID, t.ErrorCode, t.TotalSize, t.DataSize, t.ParamCount, t.Fields
 //@   loop 1 modifies t.Fields
 //@   nopanic
+// every field of the parameter area can be delivered as one token: the tokeniser's limit is at
+// least the length of that area (a field is 4 + up to 65535 bytes, more than bufio's default
+// limit of 64 KiB), it splits with FieldScanner over exactly p[22:], and each token is what the
+// field decoder gets
+//@   before call (*bufio.Scanner).Buffer assert arg2 >= len(p) - 22
+//@   before call (*bufio.Scanner).Scan assert called("(*bufio.Scanner).Buffer") && called("(*bufio.Scanner).Split")
+//@   before call bytes.NewReader assert ref(arg0) == ref(p) && off(arg0) == off(p) + 22 && len(arg0) == len(p) - 22
+//@   before call (*hotline.Field).Write assert same(arg1, callres("(*bufio.Scanner).Bytes"))
 
 // C07: an alias stores the path it was given.  The handler proves that path to be inside the file
 // root; a target rewritten here (made relative, resolved, joined) would be resolved by the OS
